@@ -23,7 +23,7 @@ META = {
             "wires, control values) and simulated INSIDE Coq on all those inputs against the documented function evaluated "
             "in Coq, and for the transcribed templates the exported gate list must be syntactically equal to the model's "
             "circuit; (c) qp.matrix(op) columns on the domain equal the decomposition's outputs.",
-    "note": "Proved for ALL sizes/layouts: SemiAdder (with >= |y|-1 given work wires), elbow-ladder Incrementer, QubitSum, QubitCarry; "
+    "note": "Proved for ALL sizes/layouts: SemiAdder (with >= |y|-1 given work wires), elbow-ladder and MCX-ladder Incrementer, QubitSum, QubitCarry; "
             "TemporaryAND's classical meaning is the model's primitive (GAnd, None outside the domain), so temporary_and_spec is "
             "close to definitional - its real H/T and Toffoli decompositions and its matrix are tied numerically on the domain. "
             "IntegerComparator: model transcribed and tied; only the finite family n<=4 (canonical layout) is decided by evaluation "
@@ -31,16 +31,16 @@ META = {
             "rules (PhaseAdder, Adder/QFT, OutAdder, Multiplier, ModExp, OutPoly, OutMultiplier/QFT), the composite SemiAdder-based "
             "rules (OutMultiplier adder/caddsub/cache, OutSquare, SignedOutSquare, SignedOutMultiplier, Adder arithmetic rule), "
             "controlled variants C(SemiAdder)/C(Incrementer), dynamically allocated work wires, the mid-circuit-measurement rule of "
-            "Adjoint(TemporaryAND) (probabilities only).  The SemiAdder/Incrementer models are a nested recursion (L_i ++ rest ++ R_i) "
+            "Adjoint(TemporaryAND) (probabilities only).  The SemiAdder/Incrementer models are nested recursions (L_i ++ rest ++ R_i; MCX ladder over the wire list) "
             "instead of the two Python loops; their gate lists are compared syntactically with the real decomposition on every "
             "generated size.  Phases are not modelled classically; absence of relative phases on the domain is only checked "
             "numerically (qp.matrix columns entrywise to 1e-9; state probabilities).  default.qubit is driven through its "
             "preprocessing program once per circuit and its apply_operation kernels on the batch of all inputs.  1-bit signed "
-            "registers (SignedOutSquare/SignedOutMultiplier) are excluded (the templates raise IndexError there).  The model "
-            "REFUTES one clause: the Incrementer fallback rule (fewer than n-1 work wires) never flips the top wire "
-            "(incrementer_fallback_refuted); the tie also shows SignedOutMultiplier returning -2^(k-1) for 0 * negative and "
-            "ignoring the documented mod 2^k wrap of the sign bit, and IntegerComparator.compute_matrix raising for geq=False with "
-            "value > 2^n (the decomposition handles that case) - all reported as violations until decided.",
+            "registers (SignedOutSquare/SignedOutMultiplier) are excluded (the templates raise IndexError there).  The "
+            "Incrementer fallback rule (MCX ladder, fewer than n-1 work wires) is proved for all n (incrementer_fallback_adds_one). "
+            "The tie shows SignedOutMultiplier returning -2^(k-1) for 0 * negative and "
+            "ignoring the documented mod 2^k wrap of the sign bit (registered known finding, keys "
+            "(dq|corr-sem|matrix):SignedOutMultiplier[negzero+overflow]...; failures on any other input get the tag 'other').",
     "assumptions": ["basis inputs inside the documented domain (x < mod, work wires |0>, TemporaryAND target |0>, "
                     "PhaseAdder with mod != 2^n restricted to mod <= 2^(n-1))",
                     "register sizes <= 4 qubits and <= 14 wires in the exhaustive tie"],
@@ -424,7 +424,10 @@ NATIVE_MATRIX = ("IntegerComparator", "TemporaryAND", "AdjTemporaryAND", "QubitC
 
 
 def fail_class(c, d, got, expect):
-    """coarse classification of the failing inputs (only used to make violation keys stable and informative)"""
+    """classification of the failing inputs of SignedOutMultiplier (makes violation keys stable).  The known
+    zeroed-rule defect (sign bit = sx xor sy, magnitude negated separately) shows up exactly on inputs whose
+    product is 0 with a negative factor ("negzero") or does not fit k signed bits ("overflow"); all failures
+    of that kind get the single tag "negzero+overflow", anything else is tagged "other"."""
     if c["t"] != "SignedOutMultiplier" or c.get("ctrl"):
         return ""
     nx, ny, k = (len(c["regs"][r]) for r in ("x", "y", "out"))
@@ -432,14 +435,12 @@ def fail_class(c, d, got, expect):
     for v, g, e in zip(d, got, expect):
         if g == e:
             continue
-        sx, sy, sz = signed(v[0], nx), signed(v[1], ny), signed(v[2], k)
-        if not (-(1 << (k - 1)) <= sz + sx * sy < (1 << (k - 1))):
-            cls.add("overflow")
-        elif sx * sy == 0 and (sx < 0 or sy < 0):
-            cls.add("negzero")
+        sx, sy = signed(v[0], nx), signed(v[1], ny)
+        if not (-(1 << (k - 1)) <= sx * sy < (1 << (k - 1))) or (sx * sy == 0 and (sx < 0 or sy < 0)):
+            cls.add("negzero+overflow")
         else:
             cls.add("other")
-    return "+".join(sorted(cls))
+    return "+".join(sorted(cls, reverse=True))      # "other" first if present: "other+negzero+overflow" / "other"
 
 
 def case_key(c):
